@@ -8,6 +8,7 @@ import (
 	"fmt"
 	"math"
 	"os"
+	"runtime"
 	"sync"
 	"testing"
 	"time"
@@ -32,6 +33,7 @@ type c09Case struct {
 	Universe int    `json:"universe"`  // zipf: number of distinct keys as a multiple of MaxSize
 	Seed     uint64 `json:"seed"`
 	Pre      int    `json:"pre"` // operations per goroutine in the concurrent pre-phase (8 goroutines); 0 = none
+	PreSecs  int    `json:"pre_secs,omitempty"` // thorough tier: a long contended pre-phase (4 x GOMAXPROCS goroutines, mostly hits) of this many seconds
 }
 
 func genC09(t *rapid.T) c09Case {
@@ -60,6 +62,14 @@ func genC09(t *rapid.T) c09Case {
 	}
 	if rapid.IntRange(0, 2).Draw(t, "prePhase") == 0 {
 		c.Pre = rapid.SampledFrom([]int{200, 2000, 10000}).Draw(t, "pre")
+	}
+	if lp := verifkit.Scale(0, 16); lp > 0 && rapid.IntRange(0, lp-1).Draw(t, "longPre") == 0 {
+		// thorough tier only: a previous life of many seconds of contended reads (more goroutines than
+		// processors), the kind of use in which damage to the read stripes accumulates
+		c.PreSecs = rapid.IntRange(15, 25).Draw(t, "preSecs")
+		c.Workload, c.Kind = "hot", "plain"
+		c.MaxSize = rapid.IntRange(500, 2000).Draw(t, "lpMaxsize")
+		c.ReadPct = rapid.SampledFrom([]int{20, 50}).Draw(t, "lpReadPct")
 	}
 	return c
 }
@@ -223,6 +233,34 @@ func runC09(c c09Case) (res c09Result, fail *verifkit.Failure) {
 		wg.Wait()
 		s.Wait()
 	}
+	if c.PreSecs > 0 {
+		var wg sync.WaitGroup
+		stop := time.Now().Add(time.Duration(c.PreSecs) * time.Second)
+		for k := 0; k < c.MaxSize/2; k++ {
+			s.Set(60_000_000+k, k, 1, 0)
+		}
+		for g := 0; g < 4*runtime.GOMAXPROCS(0); g++ {
+			g := g
+			wg.Add(1)
+			go func() {
+				defer wg.Done()
+				r := &c09Rng{s: (c.Seed + uint64(g)*104729) | 1}
+				for i := 0; ; i++ {
+					if i%256 == 0 && time.Now().After(stop) {
+						return
+					}
+					k := 60_000_000 + r.intn(c.MaxSize/2)
+					if r.intn(16) == 0 {
+						s.Set(k, k, 1, 0)
+					} else {
+						s.Get(k)
+					}
+				}
+			}()
+		}
+		wg.Wait()
+		s.Wait()
+	}
 	switch c.Workload {
 	case "hot":
 		// hot set: total cost at most half the cache
@@ -248,6 +286,11 @@ func runC09(c c09Case) (res c09Result, fail *verifkit.Failure) {
 		T := 40 * c.MaxSize
 		if T < 150000 {
 			T = 150000
+		}
+		if c.PreSecs > 0 {
+			// the keys of the previous life were read for many seconds: their frequencies have to age
+			// away (one halving per 10 x MaxSize additions) before the new hot set can win against them
+			T *= 4
 		}
 		oneOff := 10_000_000
 		var hits, reads int
@@ -357,6 +400,7 @@ func execC09(c c09Case, x *verifkit.Ctx) *verifkit.Failure {
 	x.Class("kind-" + c.Kind)
 	x.Class("workload-" + c.Workload)
 	x.ClassIf(c.Pre > 0, "concurrent-pre-phase")
+	x.ClassIf(c.PreSecs > 0, "long-contended-pre-phase")
 	x.ClassIf(c.Mixed, "mixed-costs")
 	if c.Workload == "hot" {
 		verifkit.Extra("min_hot_ratio_x1000", c09Min("hr", int64(res.hotRatio*1000)))
@@ -366,16 +410,23 @@ func execC09(c c09Case, x *verifkit.Ctx) *verifkit.Failure {
 			small = "/small-cache(<300)"
 		}
 		if c09Calibrate {
-			if res.hotRatio < 0.97 || res.hotResident < 0.97 {
+			if res.hotRatio < 0.97 || res.hotResident < 0.97 || c.PreSecs > 0 {
 				c09CalibLog("CALIB store %+v ratio=%.3f resident=%.3f\n", c, res.hotRatio, res.hotResident)
 			}
 			return nil
 		}
-		if res.hotRatio < c09ThetaHotRatio {
-			return verifkit.Failf(c09Sig("admission/hot-set-hit-ratio", small), "hot-set hit ratio over the last 30%% of the trace is %.3f (< %.2f): MaxSize %d, hot set %d%% of the cache, %d%% reads, %s, mixed costs %v, pre-phase %d", res.hotRatio, c09ThetaHotRatio, c.MaxSize, c.HotPct, c.ReadPct, c.Kind, c.Mixed, c.Pre)
+		thRatio, thRes := c09ThetaHotRatio, c09ThetaHotResident
+		if c.PreSecs > 0 {
+			// after many seconds of contended reads on other keys convergence is slower (worst of 60
+			// runs on the unchanged tree: 0.880 / 0.870): the thresholds of the policy tier apply
+			thRatio, thRes = c09PolicyThetaRatio, c09PolicyThetaResident
+			verifkit.Extra("longpre_min_hot_ratio_x1000", c09Min("lphr", int64(res.hotRatio*1000)))
 		}
-		if res.hotResident < c09ThetaHotResident {
-			return verifkit.Failf(c09Sig("admission/hot-set-not-retained", small), "only %.1f%% of the hot keys are resident at the end (< %.0f%%): MaxSize %d, hot %d%%, reads %d%%, %s", 100*res.hotResident, 100*c09ThetaHotResident, c.MaxSize, c.HotPct, c.ReadPct, c.Kind)
+		if res.hotRatio < thRatio {
+			return verifkit.Failf(c09Sig("admission/hot-set-hit-ratio", small), "hot-set hit ratio over the last 30%% of the trace is %.3f (< %.2f): MaxSize %d, hot set %d%% of the cache, %d%% reads, %s, mixed costs %v, pre-phase %d, long contended pre-phase %d s", res.hotRatio, thRatio, c.MaxSize, c.HotPct, c.ReadPct, c.Kind, c.Mixed, c.Pre, c.PreSecs)
+		}
+		if res.hotResident < thRes {
+			return verifkit.Failf(c09Sig("admission/hot-set-not-retained", small), "only %.1f%% of the hot keys are resident at the end (< %.0f%%): MaxSize %d, hot %d%%, reads %d%%, %s, long contended pre-phase %d s", 100*res.hotResident, 100*thRes, c.MaxSize, c.HotPct, c.ReadPct, c.Kind, c.PreSecs)
 		}
 		if 100-c.ReadPct >= 20 {
 			x.NonTrivial() // at least 8 x MaxSize one-off inserts
